@@ -429,8 +429,15 @@ class Extractor(object):
 
         def run():
             top = Obj(facts.classes['SourceScope'], {}, 'TOP')
-            top.attrs.update({'source': Unknown('source'), '_all_flows': [], '_unvisited': [], '_imports': [],
-                              '_star_imports': [], '_attr_assigns': [], '_global_names': {},
+            # TOP's bookkeeping containers come from supp's own SourceScope.__init__ (interpreted), whatever they are called
+            init = facts.classes['SourceScope'].lookup('__init__')
+            if init is None:
+                raise AnalysisError('SourceScope.__init__ vanished')
+            it.call(FuncVal(init.rel, init.node, None, top, init.cls), [Unknown('source')], {})
+            for v in top.attrs.values():
+                if isinstance(v, list):
+                    del v[:]
+            top.attrs.update({'source': Unknown('source'),
                               'locals': SymSet('TOP.locals'), 'globals': SymSet('TOP.globals'),
                               'top': top, 'parent': Unknown('builtin_scope')})
             curscope = Obj(facts.classes['Scope'], {}, 'CURSCOPE')
@@ -523,11 +530,11 @@ class Extractor(object):
                                       'entry': rtok(fl) if isinstance(fl, Obj) else None, 'obj': o})
         # global-names / attr-assign bookkeeping on TOP
         top = st['top']
-        ps.top_state = {
-            'imports': list(top.attrs['_imports']), 'star_imports': list(top.attrs['_star_imports']),
-            'attr_assigns': list(top.attrs['_attr_assigns']), 'global_names': dict(top.attrs['_global_names']),
-            'all_flows': [rtok(o) for o in top.attrs['_all_flows']],
-        }
+        gn = set()
+        for v in top.attrs.values():
+            if isinstance(v, dict):
+                gn.update(v)
+        ps.top_state = {'global_names': gn}
         ps.tokens = tokens
         ps.rtok = rtok
         ps.stok = stok
